@@ -262,7 +262,7 @@ def check(prop, tier):
             argv = [exe, 'run', c['id'], '--tier', tier, '--seed', str(seed), '--worker', str(w), '--nworkers', str(nw), '--n', str(per), '--out', out, '--kf', kf_txt] + sos
             if w == 0 and c['id'] in pre: argv[3:3] = ['--pre', pre[c['id']]]
             if c.get('kprog'): argv[3:3] = ['--kdir', kdir]
-            jobs.append((argv, out + '.log', t.get('timeout', 3600)))
+            jobs.append((argv, out + '.log', int(os.environ.get('VERIF_WORKER_TIMEOUT', t.get('timeout', 3600)))))
             meta.append((c, w, out, sos))
     # extra engines (fuzz, consteval) are plugged in by checks.py through 'extra'
     rcs = run_workers(exe, jobs)
